@@ -24,6 +24,9 @@ type thr struct {
 	// pending lock request while parked at an Acquire point
 	wantObj  any
 	wantMode string
+	// pending condition while parked in WaitUntil (a blocking call into code
+	// the harness models: a pipe without data, a channel without a sender)
+	waitCond func() bool
 	body     func()
 	panicMsg string
 }
@@ -121,6 +124,9 @@ func (s *Coop) enabled(t *thr) bool {
 	if t.done {
 		return false
 	}
+	if t.waitCond != nil {
+		return t.waitCond()
+	}
 	if t.wantObj == nil {
 		return true
 	}
@@ -214,6 +220,25 @@ func (s *Coop) Point(kind string, obj any) {
 	}
 	s.switchFrom(t, false)
 }
+
+// WaitUntil parks the running thread until cond holds (evaluated whenever the
+// scheduler looks for enabled threads). It models a blocking call whose
+// completion depends on other threads, e.g. Read on a pipe that another
+// goroutine fills. If cond never becomes true and nobody else can run, the run
+// ends as a deadlock.
+func (s *Coop) WaitUntil(kind string, cond func() bool) {
+	t := s.me()
+	if t == nil {
+		return
+	}
+	t.waitCond = cond
+	s.Trace = append(s.Trace, Event{t.id, "wait." + kind})
+	s.switchFrom(t, false)
+	t.waitCond = nil
+}
+
+// Done reports whether thread id has finished its body.
+func (s *Coop) Done(id int) bool { return s.threads[id].done }
 
 // Acquire implements Hooks: a scheduling point at which the thread is only
 // enabled once the lock can be taken.
